@@ -21,7 +21,8 @@ CONSTANTS
 \* "encase" = MemCase::encase / From<S>: a structure built in memory, wrapped with the `None` backend (no file)
 Loaders == {"load_full", "load_mem", "load_mmap", "mmap", "encase"}
 NoBackend(l) == l \in {"load_full", "encase"}
-Causes == {"valid", "wrongtype", "wrongalign", "corrupt", "trunc", "empty", "missing", "bigalign"}
+\* "isdir": the path is a directory - metadata() and File::open succeed, the first read fails (EISDIR), mmap fails
+Causes == {"valid", "wrongtype", "wrongalign", "corrupt", "trunc", "empty", "missing", "bigalign", "isdir"}
 \* rounding unit of the backing region's capacity
 RoundOf(l) == CASE l = "load_mem" -> 64 [] l = "load_mmap" -> 16 [] OTHER -> 1
 RegionKind(l) == CASE l = "load_mem" -> "heap" [] l \in {"load_mmap", "mmap"} -> "map" [] OTHER -> "none"
@@ -69,6 +70,7 @@ DeserOutcome ==
     [] cause = "wrongalign" -> {"WrongAlignHash"}
     [] cause = "corrupt" -> {"MagicCookieError"}
     [] cause = "empty" -> {"ReadError"}
+    [] cause = "isdir" -> {"ReadError"}       \* (load_full only: the other loaders fail before deserializing)
     \* a truncated file: the copying loaders zero-extend it, so it may even parse; mapping it does not
     [] cause = "trunc" -> IF loader \in {"load_mem", "load_mmap"}
                           THEN {"ok", "ReadError", "panic", "AlignmentError"} \cup HeaderErrors
@@ -113,8 +115,8 @@ Stat ==
 Alloc ==
   /\ pcl = "alloc"
   /\ LET cap == EffLen + MPad(EffLen, RoundOf(loader))
-     IN IF RegionKind(loader) = "map" /\ cap = 0
-        THEN \* a zero-length mapping is refused by the kernel: nothing was created
+     IN IF RegionKind(loader) = "map" /\ (cap = 0 \/ (loader = "mmap" /\ cause = "isdir"))
+        THEN \* a zero-length mapping (or the mapping of a directory) is refused by the kernel: nothing was created
              Fin("Io") /\ UNCHANGED region
         ELSE /\ region' = [kind |-> RegionKind(loader), cap |-> cap, state |-> "live", releases |-> 0,
                            tailzero |-> (loader = "mmap"), prot |-> (IF loader = "mmap" THEN "r" ELSE "rw")]
@@ -132,9 +134,19 @@ Advise ==
 \* file.read_exact(&mut bytes[..file_len]) then bytes[file_len..].fill(0); the region is still a local:
 \* an error here drops it normally
 ReadFill ==
-  /\ pcl = "read"
+  /\ pcl = "read" /\ cause # "isdir"
   /\ region' = [region EXCEPT !.tailzero = TRUE] /\ pcl' = "wrap"
   /\ UNCHANGED <<prior, fileIs, loader, flags, cause, flen, caseB, caseS, result, owner, readers, sDropped, order, steps, advised>>
+
+\* file.read_exact(..)? fails (the path is a directory): the function returns early; the region is still a local
+\* of the function and is dropped on the way out
+ReadFail ==
+  /\ pcl = "read" /\ cause = "isdir" /\ pcl' = "readfail"
+  /\ UNCHANGED <<prior, fileIs, loader, flags, cause, flen, region, advised, caseB, caseS, result, owner, readers, sDropped, order, steps>>
+DropLocal ==
+  /\ pcl = "readfail" /\ Fin("ReadError")     \* (read_exact is ε-serde's ReadNoStd method: its error is Error::ReadError)
+  /\ region' = [region EXCEPT !.state = "released", !.releases = @ + 1] /\ order' = Append(order, "B")
+  /\ UNCHANGED <<prior, fileIs, loader, flags, cause, flen, advised, caseB, caseS, owner, readers, sDropped, steps>>
 
 \* addr_of_mut!((*ptr).1).write(backend): from here on the region is owned by the uninitialised case
 Wrap ==
@@ -188,7 +200,7 @@ DropB ==
   /\ UNCHANGED <<prior, fileIs, loader, flags, cause, flen, pcl, caseB, caseS, result, readers, sDropped, steps, advised>>
 
 MNext ==
-  \/ Store \/ PreCheck \/ Encase \/ Stat \/ Alloc \/ Advise \/ ReadFill \/ Wrap \/ Deser \/ Return
+  \/ Store \/ PreCheck \/ Encase \/ Stat \/ Alloc \/ Advise \/ ReadFill \/ ReadFail \/ DropLocal \/ Wrap \/ Deser \/ Return
   \/ Move \/ BoxIt \/ Unbox \/ SendTo \/ SendBack \/ ShareArc \/ ReaderEnter \/ ReaderLeave \/ Unshare
   \/ DropS \/ DropB
 
